@@ -15,6 +15,8 @@ import pickle
 import sys
 import tempfile
 
+import binding
+
 _HOME = None
 
 
@@ -96,6 +98,38 @@ class FakeWS:
     request_headers = {}
     response_headers = {}
     subprotocol = None
+    host = "127.0.0.1"
+    port = 0
+    secure = False
+    max_size = None
+
+    @property
+    def id(self):
+        import uuid
+        if not hasattr(self, "_id"):
+            self._id = uuid.uuid4()
+        return self._id
+
+    @property
+    def state(self):
+        from websockets.protocol import State
+        return State.CLOSED if self.closed else State.OPEN
+
+    @property
+    def logger(self):
+        import logging
+        return logging.getLogger("websockets.server")
+
+    async def ensure_open(self):
+        if self.closed:
+            raise _closed_exc(self.close_ok)
+
+    def __getattr__(self, name):
+        # only reached for attributes the fake does not have: a gap of the harness, reported as a machinery error at the end
+        # of the check even when the AttributeError itself is swallowed by a fire-and-forget task
+        if not name.startswith("__") and name not in ("cid", "task", "handler_exc", "_id"):
+            FAKE_GAPS.append("FakeWS has no attribute %r" % name)
+        raise AttributeError("FakeWS has no attribute %r" % name)
 
     async def ping(self, data=None):
         if self.closed:
@@ -187,6 +221,8 @@ class AsyncioProxy:
         return getattr(asyncio, name)
 
     async def sleep(self, delay, result=None):
+        if not delay or delay <= 0:
+            return await asyncio.sleep(0, result)      # a plain yield to the loop is not a timer
         self.n_sleeps += 1
         if self.auto:
             await asyncio.sleep(0)
@@ -209,6 +245,19 @@ class AsyncioProxy:
         return sum(1 for f in self.gates if not f.done())
 
 
+WATCH_TIMERS = True  # off while a world runs on real sockets (the websockets library keeps its own keep-alive timers there)
+REAL_TIMERS = []    # timers of the server code that run on the wall clock (the delay seam did not take): machinery error
+
+
+def _note_real_timers(loop):
+    now = loop.time()
+    for h in getattr(loop, "_scheduled", ()):
+        if not h.cancelled() and 0 < h.when() - now < 30:
+            cb = getattr(h, "_callback", None)
+            REAL_TIMERS.append("a timer due in %.2f s is pending (%r)" % (h.when() - now, getattr(cb, "__qualname__", cb)))
+            return
+
+
 async def settle(limit=2000):
     """Let the loop run until nothing but the caller is runnable (no real I/O or timers are in play)."""
     loop = asyncio.get_running_loop()
@@ -218,6 +267,8 @@ async def settle(limit=2000):
         if len(loop._ready) == 0:
             quiet += 1
             if quiet >= 2:
+                if WATCH_TIMERS and not REAL_TIMERS:
+                    _note_real_timers(loop)
                 return True
         else:
             quiet = 0
@@ -233,6 +284,8 @@ class ServerWorld:
     """One server 'installation': a data directory, a ServicesManager, the connection handler."""
 
     def __init__(self, repo, datadir):
+        global WATCH_TIMERS
+        WATCH_TIMERS = type(self) is ServerWorld
         setup_env(repo)
         import frontend.server.services.file_manager as sfm
         import frontend.server.services.services_manager as sm
@@ -240,9 +293,11 @@ class ServerWorld:
         self.sfm, self.sm, self.connector = sfm, sm, connector
         self.datadir = pathlib.Path(datadir)
         self.datadir.mkdir(parents=True, exist_ok=True)
-        sfm._PROGRAM_PATH = self.datadir
+        binding.set_data_dir(sfm, self.datadir)
         self.proxy = AsyncioProxy()
-        sm.asyncio = self.proxy
+        # every name of services_manager bound to the asyncio module (whatever it is called) or to asyncio.sleep
+        self._amap = {asyncio: self.proxy, asyncio.sleep: self.proxy.sleep}
+        binding.rebind(sm, self._amap)
         self.restart()
         self.tasks = []
         self.handler_errors = []
@@ -250,9 +305,13 @@ class ServerWorld:
 
     def restart(self):
         """Server process restart: all in-memory objects are dropped, the directory stays."""
-        self.sfm._PROGRAM_PATH = self.datadir
+        binding.set_data_dir(self.sfm, self.datadir)
         self.manager = self.sm.ServicesManager()
-        self.connector._sse_service_manager = self.manager
+        names = binding.find_instances(self.connector, self.sm.ServicesManager)
+        if not names:
+            raise binding.BindingError("frontend.server.connector holds no ServicesManager instance at module level")
+        for n in names:
+            setattr(self.connector, n, self.manager)
         self.proxy.gates = []
 
     def open(self, sid, name="c", cid=None):
@@ -265,7 +324,7 @@ class ServerWorld:
 
         async def run():
             try:
-                await self.connector.handler(ws, "/")
+                await binding.call_handler(self.connector.handler, ws, "/")
             except BaseException as ex:  # the websockets server wrapper closes with 1011 on handler failure
                 ws.handler_exc = ex
                 if isinstance(ex, AttributeError) and "FakeWS" in str(ex):
@@ -304,7 +363,7 @@ class ServerWorld:
         await settle()
         await self.kill()
         self.proxy.auto = False
-        self.sm.asyncio = asyncio
+        binding.restore(self.sm, self._amap)
 
     # ---- projection of the durable state
     def project(self, sid, cfgs=(), edbs=()):
@@ -371,6 +430,15 @@ def decode_server_msgs(raw_msgs):
                 pass
         elif t == "control":
             pass
+        else:
+            # a reply of a type the protocol does not know (e.g. the echo of an unknown request type): an explicit refusal is
+            # a refusal whatever type it is sent under
+            try:
+                cc = pickle.loads(c)
+                if isinstance(cc, dict) and "ok" in cc:
+                    d["ok"] = bool(cc.get("ok"))
+            except Exception:
+                pass
         out.append(d)
     return out
 
